@@ -433,11 +433,13 @@ func (r *Run) load(st *State, a *Addr, t types.Type, te TypeEnv) *Val {
 	case AField, ABox:
 		for _, l := range ls {
 			name := joinPath(joinPath(a.Base, a.Path), l.Path)
+			noteRefComp(name, l, te)
 			v.L = append(v.L, Select(st.comp(name, ArrSort(SInt, l.Sort)), a.Ref))
 		}
 	case AElem:
 		for _, l := range ls {
 			name := joinPath(joinPath(a.Base, a.Path), l.Path)
+			noteRefComp(name, l, te)
 			v.L = append(v.L, Select(Select(st.comp(name, ArrSort(SInt, ArrSort(SInt, l.Sort))), a.Ref), a.Idx))
 		}
 	case AGlobal:
@@ -582,6 +584,23 @@ func (r *Run) fieldAddr(a *Addr, st *types.Struct, i int, te TypeEnv) *Addr {
 		n.Path = joinPath(a.Path, f.Name())
 	}
 	return &n
+}
+
+// heap components whose cells hold references (pointers, maps, backing arrays)
+var refComps = map[string]bool{}
+
+func noteRefComp(name string, l Leaf, te TypeEnv) {
+	if l.Sort != SInt || l.T == nil {
+		return
+	}
+	switch types.Unalias(te.apply(l.T)).Underlying().(type) {
+	case *types.Pointer, *types.Map:
+		refComps[name] = true
+	case *types.Slice:
+		if strings.HasSuffix(l.Path, "#arr") {
+			refComps[name] = true
+		}
+	}
 }
 
 // newObject allocates a fresh heap object of type t (zero-initialised) and returns its address.
